@@ -70,7 +70,7 @@ def main(argv=None):
             return 0
         selftest = None
         from . import selftest as st
-        selftest = st.run(prop, rids, args.tier, seed)
+        selftest = st.run(prop, rids, args.tier, seed, obs)
         from .propdoc import PROPDOC
         meta = {
             'rules': rids,
